@@ -483,7 +483,7 @@ func runCallCase(c callCase, st *callStats) *fail {
 	case "Lock":
 		r.mock.Push("Lock", res)
 		one(refcodec.Tlock, refcodec.New(refcodec.Rlock, 0, "status", c.RStatus),
-			mockfs.Rec{Op: "Lock", Name: name, U: []uint64{uint64(uint32(c.PID)), uint64(c.LType), uint64(c.LFlags), c.Start, c.Length}},
+			mockfs.Rec{Op: "Lock", Name: name, U: []uint64{uint64(int64(c.PID)), uint64(c.LType), uint64(c.LFlags), c.Start, c.Length}},
 			"fid", "$recv", "type", c.LType, "flags", c.LFlags, "start", c.Start, "length", c.Length, "proc_id", uint64(uint32(c.PID)), "client_id", name)
 		s, err := recv.Lock(int(c.PID), p9.LockType(c.LType), p9.LockFlags(c.LFlags), c.Start, c.Length, name)
 		gotErr = err
